@@ -21,6 +21,7 @@ import (
 	"github.com/ipfs/go-cid"
 	"github.com/ipni/go-libipni/announce"
 	"github.com/ipni/go-libipni/announce/message"
+	"github.com/ipni/go-libipni/announce/p2psender"
 	"github.com/libp2p/go-libp2p"
 	pubsub "github.com/libp2p/go-libp2p-pubsub"
 	"github.com/libp2p/go-libp2p/core/peer"
@@ -790,9 +791,128 @@ func layer4(t *testing.T, r *vp.Recorder, depth int) {
 	rec(nil)
 }
 
+// layer5: announcements that reach the receiver the way a publisher sends
+// them: announce.Send through the library's pubsub sender (and, next to it, a
+// second sender, so that one call feeds two) on the receiver's topic. For
+// every ordered pair of CIDs over an alphabet in which CIDs share their digest
+// and differ in version or codec: Send(a) is delivered with exactly a; Send(a)
+// again is a duplicate; Send(b) is delivered with exactly b unless b is a;
+// after UncacheCid(a), Send(a) is delivered again.
+func layer5(t *testing.T, r *vp.Recorder) {
+	mh1 := fixture.Mh("c09-layer5-one", 0x12, -1)
+	mh2 := fixture.Mh("c09-layer5-two", 0x12, -1)
+	cids := []cid.Cid{cid.NewCidV0(mh1), cid.NewCidV1(cid.DagProtobuf, mh1), cid.NewCidV1(cid.Raw, mh1), cid.NewCidV1(cid.DagJSON, mh1), cid.NewCidV0(mh2), cid.NewCidV1(cid.DagCBOR, mh2)}
+	addrs := []multiaddr.Multiaddr{multiaddr.StringCast("/ip4/203.0.113.5/tcp/3104/http")}
+	for ai, a := range cids {
+		for bi, b := range cids {
+			key := fmt.Sprintf("send|%d,%d", ai, bi)
+			if !r.Mine(key) {
+				continue
+			}
+			r.Eval(key, true)
+			r.Trace(1)
+			r.State(key)
+			var bad, cls string
+			func() {
+				defer func() {
+					if e := recover(); e != nil {
+						if s := fmt.Sprint(e); strings.Contains(s, "blocked goroutines remain") || strings.Contains(s, "deadlock") {
+							r.Count("bubbles_ended_with_third_party_goroutines", 1)
+							return
+						}
+						panic(e)
+					}
+				}()
+				synctest.Test(t, func(t *testing.T) {
+					self := fixture.Key("ed25519", 20)
+					h, err := libp2p.New(libp2p.NoListenAddrs, libp2p.Identity(self.Priv))
+					if err != nil {
+						panic(err)
+					}
+					psCtx, psCancel := context.WithCancel(context.Background())
+					ps, err := pubsub.NewGossipSub(psCtx, h)
+					if err != nil {
+						panic(err)
+					}
+					topic, err := ps.Join("/indexer/ingest/c09-send")
+					if err != nil {
+						panic(err)
+					}
+					rc, err := announce.NewReceiver(h, "", announce.WithTopic(topic), announce.WithAllowPeer(func(peer.ID) bool { return true }))
+					if err != nil {
+						panic(err)
+					}
+					sender, err := p2psender.New(nil, "", p2psender.WithTopic(topic))
+					if err != nil {
+						panic(err)
+					}
+					defer func() {
+						rc.Close()
+						sender.Close()
+						topic.Close()
+						psCancel()
+						h.Close()
+						time.Sleep(30 * time.Minute)
+					}()
+					next := func() (bool, announce.Announce) {
+						ctx, cancel := context.WithCancel(context.Background())
+						defer cancel()
+						type res struct {
+							a   announce.Announce
+							err error
+						}
+						ch := make(chan res, 1)
+						go func() { a, err := rc.Next(ctx); ch <- res{a, err} }()
+						synctest.Wait()
+						select {
+						case x := <-ch:
+							return x.err == nil, x.a
+						default:
+							cancel()
+							<-ch
+							return false, announce.Announce{}
+						}
+					}
+					step := func(what string, c cid.Cid, want bool) bool {
+						if err := announce.Send(context.Background(), c, addrs, sender, nil); err != nil {
+							bad, cls = fmt.Sprintf("%s: announce.Send(%s) failed: %v", what, c, err), "send-error"
+							return false
+						}
+						synctest.Wait()
+						got, an := next()
+						switch {
+						case got != want:
+							bad, cls = fmt.Sprintf("%s: announce.Send(%s): delivered=%v, expected %v", what, c, got, want), "wrong-delivery-of-a-sent-announcement"
+						case got && !an.Cid.Equals(c):
+							bad, cls = fmt.Sprintf("%s: announce.Send(%s) was delivered as %s", what, c, an.Cid), "sent-cid-changed"
+						case got && an.PeerID != self.ID:
+							bad, cls = fmt.Sprintf("%s: announce.Send(%s) by %s was delivered as coming from %s", what, c, self.ID, an.PeerID), "wrong-attribution"
+						case got && (len(an.Addrs) != 1 || !an.Addrs[0].Equal(addrs[0])):
+							bad, cls = fmt.Sprintf("%s: announce.Send(%s) with addresses %v was delivered with %v", what, c, addrs, an.Addrs), "sent-addresses-changed"
+						}
+						return bad == ""
+					}
+					if !step("first", a, true) || !step("the same again", a, false) || !step("the second CID", b, !b.Equals(a)) {
+						return
+					}
+					rc.UncacheCid(a)
+					step("after UncacheCid of the first", a, true)
+				})
+			}()
+			r.Transition(4)
+			if bad != "" {
+				r.Outcome("mismatch")
+				r.Violation("send:"+cls, key, fmt.Sprintf("CIDs %s then %s: %s", a, b, bad), nil)
+			} else {
+				r.Outcome("send-agrees")
+			}
+		}
+	}
+}
+
 func TestCheck(t *testing.T) {
 	r := vp.New("C09", "model_checking",
-		"three layers, all against one reference model (allow predicate, then an LRU set with refresh-on-hit and explicit removal): (1) the LRU object (test-only export) at capacities 1..3 over capacity+2 strings: every sequence of exactly `depth` update/remove operations, return value and length compared after every step; (2) the real receiver (no pubsub) at its real capacity: a fill prefix of exactly capacity distinct CIDs (three variants: plain, one refreshed in the middle, one un-cached and re-announced) followed by every sequence of <= N operations over {announce oldest / second-oldest / newest / a fresh CID / a fresh CID from a denied peer / the oldest CID from a denied peer / the CID evicted last / the CID added last / a burst of capacity-1 fresh CIDs / the same digest as the newest or the oldest under another codec, un-cache oldest / newest / the other-codec variant of the newest}; after each announcement a consumer calls Next and quiescence in a synctest bubble decides delivered / not delivered; (3) every address list of <= M over 19 addresses (public, private ranges, loopback, unspecified, unique-local, localhost; the IP followed by tcp, udp, sctp, tls, http or nothing) with filtering on and off; (4) the pubsub path: every sequence of <= K messages over {plain from F, republished by relay R for origin O, republished for a denied origin, plain from a denied peer, republished by a denied relay for O, own republication, republished by R for an original publisher that is the receiver's own host, malformed payload, direct announcement with resend (of O and of the receiver's own host; the republication is read from a second subscription on the topic and must name the announced publisher), repeats of the previous CID}, delivery / non-delivery and attribution decided by quiescence. states = distinct sequences; transitions = operations; traces = sequences executed on the real code.",
+		"three layers, all against one reference model (allow predicate, then an LRU set with refresh-on-hit and explicit removal): (1) the LRU object (test-only export) at capacities 1..3 over capacity+2 strings: every sequence of exactly `depth` update/remove operations, return value and length compared after every step; (2) the real receiver (no pubsub) at its real capacity: a fill prefix of exactly capacity distinct CIDs (three variants: plain, one refreshed in the middle, one un-cached and re-announced) followed by every sequence of <= N operations over {announce oldest / second-oldest / newest / a fresh CID / a fresh CID from a denied peer / the oldest CID from a denied peer / the CID evicted last / the CID added last / a burst of capacity-1 fresh CIDs / the same digest as the newest or the oldest under another codec, un-cache oldest / newest / the other-codec variant of the newest}; after each announcement a consumer calls Next and quiescence in a synctest bubble decides delivered / not delivered; (3) every address list of <= M over 19 addresses (public, private ranges, loopback, unspecified, unique-local, localhost; the IP followed by tcp, udp, sctp, tls, http or nothing) with filtering on and off; (4) the pubsub path: every sequence of <= K messages over {plain from F, republished by relay R for origin O, republished for a denied origin, plain from a denied peer, republished by a denied relay for O, own republication, republished by R for an original publisher that is the receiver's own host, malformed payload, direct announcement with resend (of O and of the receiver's own host; the republication is read from a second subscription on the topic and must name the announced publisher), repeats of the previous CID}, delivery / non-delivery and attribution decided by quiescence; (5) announce.Send through the library's pubsub sender on the receiver's topic for every ordered pair of 6 CIDs that share digests across versions and codecs (CIDv0 included): sent, sent again, the second CID, un-cached and sent again; the delivered CID, publisher and addresses are the sent ones. states = distinct sequences; transitions = operations; traces = sequences executed on the real code.",
 		"reference model is the oracle (trusted, 30 lines)",
 		"pubsub path (layer 4): one libp2p host without transports and one gossipsub topic inside a synctest bubble; messages are injected on the topic under arbitrary author identities; multi-host gossip is not driven",
 		"non-public is judged by net.IP.IsLoopback/IsPrivate/IsUnspecified and the name localhost, independently of go-multiaddr's own classification",
@@ -812,5 +932,6 @@ func TestCheck(t *testing.T) {
 	layer2(t, r, d2)
 	layer3(t, r, d3)
 	layer4(t, r, d4)
+	layer5(t, r)
 	t.Logf("violations: %d", r.Violations())
 }
